@@ -17,7 +17,7 @@ def prune_dangling(ops):
         if k == "CONSTRUCT":
             live.add((op[1], op[2]))
             out.append(op)
-        elif k in ("READ", "DROP"):
+        elif k in ("READ", "READX", "DROP"):
             if (op[1], op[2]) in live:
                 out.append(op)
                 if k == "DROP":
@@ -34,7 +34,7 @@ def used_ids(sc, ops):
         if k == "CONSTRUCT":
             clients.add(op[1])
             specs.add(op[3])
-        elif k == "READ":
+        elif k in ("READ", "READX"):
             args.update(path_arg_ids(op[3]))
         elif k == "PROBE":
             specs.add(op[1])
@@ -48,7 +48,8 @@ def used_ids(sc, ops):
         grew = False
         for a in list(args):
             ad = sc["args"].get(a, {})
-            for b in ([ad["view_of"]] if "view_of" in ad else []) + (model.compose_refs(ad["compose"]) if "compose" in ad else []):
+            for b in ([ad["view_of"]] if "view_of" in ad else []) + ([ad["trim_of"]] if "trim_of" in ad else []) + (
+                    model.compose_refs(ad["compose"]) if "compose" in ad else []):
                 if b not in args:
                     args.add(b)
                     grew = True
